@@ -13,6 +13,8 @@ PROFILES = [
     ("all states admitted (filter <-> constraint)", {"p_r": 1.0, "all_admitted": True, "p_state_filter": 0.0, "max_cells": 700}),
     ("stochastic", {"p_h": 1.0, "p_h_stoch": 1.0, "T": [2, 3], "max_cells": 700}),
     ("unrestricted discrete state and choice", {"p_r": 0.0, "p_h": 1.0, "p_b": 1.0, "p_a": 1.0, "max_cells": 900}),
+    ("integer arithmetic on the restricted variables (filter <-> constraint)", {"p_r": 1.0, "p_int_arith": 1.0, "all_admitted": True, "p_state_filter": 0.0,
+                                                                               "p_a_tie": 0.0, "p_r_only_filter": 0.0, "p_near_tie": 0.0, "max_cells": 700}),
     ("two stochastic states", {"p_h": 1.0, "p_h_stoch": 1.0, "p_e": 1.0, "T": [2, 3], "p_z": 0.0, "max_cells": 900}),
 ]
 
